@@ -294,7 +294,8 @@ def _try(S, name, f, exc=DOC_EXC, ref=None, **args):
 
 
 def _rxn(E, m, name="target", pool=("R1", "DM_B")):
-    have = [r for r in pool if r in m.reactions]
+    only = E.notes.get("_only_rxn")        # harnesses that spend their depth on one reaction (c03_same_reaction)
+    have = [r for r in pool if r in m.reactions and (only is None or r == only)]
     if not have:
         have = [r.id for r in m.reactions][:1]
     if not have:
